@@ -10,6 +10,12 @@ def run(ctx):
     rnd = random.Random(ctx.seed)
     if ctx.replay_path:
         items = [json.load(open(ctx.replay_path))["replay"]]
+        for kind, cmd in (("modindex", "wexec-modindex"), ("constexpr", "wexec-constexpr")):
+            if kind in items[0]:
+                for r in ctx.replay(cmd, [items[0][kind]], timeout=300):
+                    for f in r.get("fails", []):
+                        ctx.fail(f["key"], f["msg"], replay=items[0])
+                return
     else:
         bodies = c01.distinct(c01.generate(ctx, q, invalid=True))
         valid = [b for b in bodies if b["bad"] == ""]
@@ -32,6 +38,16 @@ def run(ctx):
         for c, r in zip(cases, cres):
             for f in r.get("fails", []):
                 ctx.fail(f["key"], f["msg"], replay={"constexpr": c})
+    # module-level index spaces: base shape x one replaced reference x one index-carrying instruction, labelled by ModuleIndex.tla
+    if not ctx.replay_path:
+        mi = ctx.tlc("ModuleIndexMC", "ModuleIndexQuick.cfg" if q else "ModuleIndex.cfg", workers=1, tag="module-index-spaces")["emitted"]
+        mcases = [e[0] if isinstance(e, list) else e for e in mi]
+        ctx.extra["module_index_cases"] = len(mcases)
+        ctx.extra["module_index_cases_valid"] = sum(1 for m in mcases if m["valid"])
+        mres = ctx.replay("wexec-modindex", mcases, timeout=3000)
+        for m, r in zip(mcases, mres):
+            for f in r.get("fails", []):
+                ctx.fail(f["key"], f["msg"], replay={"modindex": m})
     results = ctx.replay("wexec-compile", items, timeout=3400)
     for it, r in zip(items, results):
         for f in r.get("fails", []):
